@@ -208,12 +208,8 @@ func (t *Tags) RemoveTag(key string) {
 }
 
 func (t *Tags) RemoveTags(keys []string) {
-	for i, tag := range *t {
-		for _, key := range keys {
-			if tag.Key == key {
-				*t = append((*t)[:i], (*t)[i+1:]...)
-			}
-		}
+	for _, key := range keys {
+		t.RemoveTag(key)
 	}
 }
 
